@@ -1,8 +1,8 @@
 package main
 
 import (
-	"go/token"
 	"fmt"
+	"go/token"
 	"sort"
 	"strings"
 
@@ -425,14 +425,14 @@ var c09Canaries = []Canary{
 // disk, crash) as the object. Decided program-wide by the provenance of the path argument of every existence
 // test; the sites that stat an object path without comparing its size are a frozen table with reasons.
 var presenceStatAllowed = map[string]string{
-	"(*tq.basicDownloadAdapter).download": "forgives a failed rename when another process already placed the object (the verified temp file was renamed first)",
-	"(*tq.SSHAdapter).doDownload":         "same idiom as the basic adapter",
-	"commands.delayedSmudge":              "decides only whether to delay; Smudge re-checks the size before the object is read",
-	"commands.migrateExportCommand":       "export queues missing objects; present ones are read through Smudge, which checks the size",
-	"(*fs.Filesystem).cleanupTmp":         "stale-temp cleanup: removes a temp object when the final one exists (never touches the final one)",
+	"(*tq.basicDownloadAdapter).download":  "forgives a failed rename when another process already placed the object (the verified temp file was renamed first)",
+	"(*tq.SSHAdapter).doDownload":          "same idiom as the basic adapter",
+	"commands.delayedSmudge":               "decides only whether to delay; Smudge re-checks the size before the object is read",
+	"commands.migrateExportCommand":        "export queues missing objects; present ones are read through Smudge, which checks the size",
+	"(*fs.Filesystem).cleanupTmp":          "stale-temp cleanup: removes a temp object when the final one exists (never touches the final one)",
 	"(*commands.uploadContext).ensureFile": "push: decides only whether to re-clean from the work tree; a present file of the wrong size is reported by partitionTransfers' size comparison (C03.R4)",
-	"commands.uploadsWithObjectIDs":       "push --object-id: the stat result supplies the size that is sent",
-	"(*lfs.GitFilter).readLocalFile":      "fills in an unknown size for progress reporting after the file was opened",
+	"commands.uploadsWithObjectIDs":        "push --object-id: the stat result supplies the size that is sent",
+	"(*lfs.GitFilter).readLocalFile":       "fills in an unknown size for progress reporting after the file was opened",
 }
 
 func objectPresenceRule(c *Ctx, rule string, sf *storeFlow) {
